@@ -20,6 +20,13 @@ the tag just removed / a name that never was a tag / a block closed by another t
 every syntax, compiled by both template classes and by plain subclasses of them, sometimes with templates of both
 classes as namespace values of one rendering; expected program / text from the abstract registry kept by the check and
 the add-on tags' documented meaning.
+Round 8 — (D) pieces of the tag delimiters of all syntaxes ('<!--', '<!-', '--', '->', '<dtml', '&dtml', '%', ')[', ']', '>' …)
+inside quoted attribute values and the string literals of expressions, at every site that takes such a text (var missing /
+null / etc, var / if / elif / unless / in / let / call expressions, inside else / try sections), text predicted by hand;
+(E) what a rejection REPORTS: multi-line abstract templates with one compile-time fault (a block its tag rejects, a block never
+closed, an insertion with a bad attribute, an unknown tag, an end tag with nothing to end) at every depth / section of valid
+enclosing blocks, printed by P3 with a marker around the tag at fault: every spelling must raise ParseError for exactly that
+tag text on the line that tag starts on in that spelling (read off the printed source), with the same message everywhere.
 Oracle (on the implementation): the spellings of one abstract template are all accepted or all rejected, their normalised
 compiled programs are equal AND equal to the program the abstract template denotes (`expect`: computed from the abstract
 template and the documented line-end rule, not from the code), and rendering them with each of several namespaces gives
@@ -1761,10 +1768,300 @@ def run_concurrent(res, r, n_groups, per_group):
                 return
 
 
+# --------------------------------------------------------------------------- class D (round 8): pieces of the tag delimiters
+# inside attribute values and expressions.  A quoted value / an expression string may hold any text but '"' — in
+# particular the beginnings, middles and ends of the delimiters of ALL the syntaxes ('<!--', '<!-', '--', '->', '<dtml', '</',
+# '&dtml', '%', ')s', ')[', ']', '>' …; only complete openers and '-->' cannot be printed in every syntax).  Each fragment
+# (alone, after / before a letter, two of them) at every site that takes a quoted text: var missing / null / etc, string
+# literals of var / if / unless / in / let / call expressions, in every block position; what the template renders to is
+# computed here from the documented meaning of the attribute / of the Python expression (plain string operations).
+FRAGS = ['<!--', '<!-- ', '<!-', '<!', '<!--x', '<!-- #', ' <!--/', '--', '->', '- ->', '-- >', '--!>', '<', '</', '<d', '<dtml',
+         '</dtml', '<dtml -', '< dtml-', '&dtml', '&dt', '&', ';', '&dtml ;', '%', '% (', '(', ')', ')s', ')[', ')]', ')!', '[', ']',
+         '>', '/>', '>>', '#', '<!--<dtml', '%)', '<!--&dtml']
+
+
+def frag_values(r, n_pairs):
+    vals = []
+    for f in FRAGS:
+        vals += [f, 'a' + f, f + 'a']
+    for _ in range(n_pairs):
+        vals.append(r.choice(FRAGS) + r.choice(['', ' ', 'x', '=']) + r.choice(FRAGS))
+    return [v for v in dict.fromkeys(vals) if printable(v) and "'" not in v and '\\' not in v]
+
+
+def frag_sites(v, r):
+    """(site, abstract template, namespace additions, rendered text on each of small_ns()) — the text follows from the
+    attribute's documented meaning resp. from evaluating the expression by hand: 'V' + s, s[:n] == 'V', ['V', s] …"""
+    L = lambda s: ('lit', s)  # noqa: E731
+    s = v + ' tail'
+    lit = "'%s'" % v
+    var = lambda t, o=(): ('var', t, list(o))  # noqa: E731
+    item = var(('name', 'sequence-item'))
+    return [
+        ('missing', [L('['), var(('name', 'nope'), [('missing', v)]), L(']')], {}, ['[' + v + ']'] * 3),
+        ('null-inner', [var(('name', 'z'), [('null', v), ('missing', 'm')]), L('|')], {}, [v + '|'] * 3),
+        ('etc', [var(('name', 'long'), [('size', '4'), ('etc', v)]), L('.')], {'long': 'abcdefgh'}, ['abcd' + v + '.'] * 3),
+        ('var-expr', [L('['), var(('expr', lit + ' + s')), L(']')], {'s': s}, ['[' + v + s + ']'] * 3),
+        ('var-expr-upper', [var(('expr', 's + ' + lit), [('upper', None)]), L('!')], {'s': s}, [(s + v).upper() + '!'] * 3),
+        ('if-expr', [L('('), ('if', [(('expr', 's[:%d] == %s' % (len(v), lit)), [L('yes')])], [L('no')]), L(')')], {'s': s},
+         ['(yes)'] * 3),
+        ('elif-expr', [('if', [(('name', 'nil'), [L('A')]), (('expr', 's == ' + lit), [L('B')]),
+                               (('expr', '%s in s' % lit), [var(('name', 'nope'), [('missing', v)])])], [L('C')])],
+         {'s': s, 'nil': 0}, [v] * 3),
+        ('unless-expr', [('unless', ('expr', 's == ' + lit), [L('U'), var(('name', 'z'), [('null', v)])]), L('.')], {'s': s},
+         ['U' + v + '.'] * 3),
+        ('in-expr', [('in', ('expr', '[%s, s]' % lit), [], [item, L(',')], [L('none')])], {'s': s}, [v + ',' + s + ','] * 3),
+        ('in-else', [L('['), ('in', ('name', 'empty'), [], [item], [var(('name', 'nope'), [('missing', v)])]), L(']')],
+         {'empty': []}, ['[' + v + ']'] * 3),
+        ('with-body', [('with', ('name', 'o'), [], [var(('expr', lit + ' * 2')), L('w')])], {}, [v + v + 'w'] * 3),
+        ('let-expr', [('let', [('v0', lit + ' + s', True)], [L('l'), var(('name', 'v0'))])], {'s': s}, ['l' + v + s] * 3),
+        ('call-expr', [L('a'), ('call', ('expr', 'len(%s)' % lit)), L('b'), var(('name', 'nope'), [('missing', v)])], {},
+         ['ab' + v] * 3),
+        ('try', [('try', [var(('expr', lit))], [('KeyError', [L('h')])], [var(('name', 'z'), [('null', v)])], None)], {},
+         [v + v] * 3),
+    ]
+
+
+def run_fragments(res, r, n_random, reqs, meta, all_sites):
+    for v in frag_values(r, n_random):
+        sites = frag_sites(v, r)
+        if not all_sites and v not in FRAGS:
+            sites = r.sample(sites, 4)
+        for sname, t, extra, outs in sites:
+            extra = dict(extra, z=None)
+            res.nt(('fragment', v, sname))
+            res.count('delimiter_fragment_value')
+            check_group(res, 'delimiter-fragment:' + sname, spellings(t, r, with_tmplgen=False), False, reqs, meta, extra=extra,
+                        nss=small_ns(), expect_status='ok', expect_tree=expect(t), expect_out=[{'ok': o} for o in outs],
+                        abstract=repr(t))
+
+
+# --------------------------------------------------------------------------- class E (round 8): what a rejection REPORTS
+# "raises the same errors": a ParseError names the tag at fault and its line.  Abstract faulty templates laid out over several
+# lines — one fault each, at every depth and in every section of the enclosing (valid) blocks, with text, insertions and whole
+# blocks on the lines before it, inside it and after it:
+#   * a complete block its tag rejects (unknown attribute, too many / misplaced else, elif after else, bad try layouts,
+#     in prefix / orphan rules)                                             -> reported for the block's START tag;
+#   * a block that is never closed (top level; or inside one block)         -> its start tag ('No closing tag') resp. the
+#     end tag that does not match ('unexpected end tag');
+#   * an insertion with an unknown attribute / name and expr                -> that tag;
+#   * a tag that does not exist ('Unexpected tag'), an end tag with nothing to end ('unexpected end tag') -> that tag.
+# Each is printed by P3 (= P2 + a marker around the tag at fault) in every syntax, twice; the expected report — the text of
+# the tag as printed and the line it STARTS on — is read off the printed source by counting newlines before the marker,
+# independently for every spelling (tags may themselves span lines, so the spellings have different line numbers).
+class P3(P2):
+    mark = False
+
+    def tag(self, head, name, args, tail):
+        m, self.mark = self.mark, False
+        s = P2.tag(self, head, name, args, tail)
+        return '\x01' + s + '\x02' if m else s
+
+    def node(self, n):
+        k = n[0]
+        if k == 'mark':
+            self.mark = True
+            s = self.node(n[1])
+            if self.mark:
+                raise ValueError('nothing marked in %r' % (n,))
+            return s
+        if k == 'open':
+            # a block without its end tag: ('open', tag, sections)
+            secs = n[2]
+            return ''.join(self.open(sn, self.join(([self.target(st)] if st is not None else []) + self.opts(so))) +
+                           self.nodes(sb) for sn, st, so, sb in secs)
+        if k == 'end':
+            return self.close(n[1], '')
+        return P2.node(self, n)
+
+
+FAULT_TEXT = ['text\n', '\n', ' \n', 'a', '<b>\n', 'x\r\ny', '  ', '\n\n', 'line\n']
+NO_END_FOR = ['if', 'in', 'with', 'try', 'let', 'unless', 'raise', 'comment', 'var', 'call', 'else', 'nosuch']
+
+
+def fault_filler(r, depth, must_tag=False):
+    """valid content over several lines: text, insertions, whole blocks"""
+    L = lambda s: ('lit', s)  # noqa: E731
+    out = []
+    for i in range(r.randint(1, 3)):
+        out.append(L(r.choice(FAULT_TEXT)))
+        c = r.random()
+        if c < 0.5 or (must_tag and i == 0):
+            out.append(('var', ('name', r.choice(['x', 'y', 'c'])), r.choice([[], [('upper', None)], [('missing', 'm')]])))
+        elif c < 0.75 and depth > 0:
+            out.append(fault_wrap(r, None, depth - 1))
+        out.append(L(r.choice(FAULT_TEXT)))
+    return out
+
+
+def fault_wrap(r, inner, depth, kinds=('if', 'in', 'with', 'try', 'try-finally', 'unless', 'let')):
+    """a valid block; `inner` (a list of nodes, or None) becomes part of one of its sections"""
+    c, d = ('name', 'c'), ('name', 'd')
+    slots = []
+
+    def slot(optional=False):
+        if optional and r.random() < 0.4:
+            slots.append(None)
+        else:
+            slots.append(fault_filler(r, depth))
+        return len(slots) - 1
+
+    k = r.choice(kinds)
+    if k == 'if':
+        idx = [slot(), slot(), slot(True)]
+    elif k == 'in':
+        idx = [slot(), slot(True)]
+    elif k == 'try':
+        idx = [slot(), slot(), slot(True)]
+    elif k == 'try-finally':
+        idx = [slot(), slot()]
+    else:
+        idx = [slot()]
+    if inner is not None:
+        i = r.randrange(len(slots))
+        slots[i] = fault_filler(r, depth) + inner + (fault_filler(r, depth) if r.random() < 0.7 else [])
+    if k == 'if':
+        return ('if', [(c, slots[0]), (d, slots[1])], slots[2])
+    if k == 'in':
+        return ('in', ('name', 'seq'), [], slots[0], slots[1])
+    if k == 'try':
+        return ('try', slots[0], [('KeyError', slots[1])], slots[2], None)
+    if k == 'try-finally':
+        return ('try', slots[0], [], None, slots[1])
+    if k == 'unless':
+        return ('unless', c, slots[0])
+    if k == 'with':
+        return ('with', ('name', 'o'), [], slots[0])
+    return ('let', [('v0', 'c', False)], slots[0])
+
+
+def block_faults(r, depth):
+    """complete blocks their tag rejects: (name, ('cb', tag, None, sections))"""
+    c, d, seq = ('name', 'c'), ('name', 'd'), ('name', 'seq')
+    b = lambda: fault_filler(r, depth, must_tag=True)  # noqa: E731
+    S = lambda *secs: [(sn, st, list(so), b()) for sn, st, so in secs]  # noqa: E731
+    return [
+        ('in-unknown-attribute', ('cb', 'in', None, S(('in', seq, [('bogus', '1')])))),
+        ('in-unknown-attribute-else', ('cb', 'in', None, S(('in', seq, [('reverse', None), ('bogus', '1')]), ('else', None, [])))),
+        ('in-two-else', ('cb', 'in', None, S(('in', seq, []), ('else', None, []), ('else', None, [])))),
+        ('in-prefix', ('cb', 'in', None, S(('in', seq, [('prefix', 'a-b')])))),
+        ('in-orphan-unbatched', ('cb', 'in', None, S(('in', seq, [('orphan', '1')])))),
+        ('if-two-else', ('cb', 'if', None, S(('if', c, []), ('else', None, []), ('else', None, [])))),
+        ('if-elif-after-else', ('cb', 'if', None, S(('if', c, []), ('else', None, []), ('elif', d, [])))),
+        ('if-unknown-attribute', ('cb', 'if', None, S(('if', c, [('bogus', '1')]), ('else', None, [])))),
+        ('elif-unknown-attribute', ('cb', 'if', None, S(('if', c, []), ('elif', d, [('bogus', '1')])))),
+        ('unless-unknown-attribute', ('cb', 'unless', None, S(('unless', c, [('bogus', '1')])))),
+        ('with-unknown-attribute', ('cb', 'with', None, S(('with', ('name', 'o'), [('bogus', '1')])))),
+        ('try-two-defaults', ('cb', 'try', None, S(('try', None, []), ('except', None, []), ('except', None, [])))),
+        ('try-except-after-else', ('cb', 'try', None, S(('try', None, []), ('else', None, []), ('except', None, [('KeyError', None)])))),
+        ('try-two-else', ('cb', 'try', None, S(('try', None, []), ('except', None, []), ('else', None, []), ('else', None, [])))),
+        ('try-finally-except', ('cb', 'try', None, S(('try', None, []), ('finally', None, []), ('except', None, [])))),
+        ('try-except-finally', ('cb', 'try', None, S(('try', None, []), ('except', None, []), ('finally', None, [])))),
+    ]
+
+
+def tag_faults(r):
+    return [
+        ('var-unknown-attribute', ('var', ('name', 'x'), [('bogus', '1')]), None),
+        ('var-name-and-expr', ('var', ('name', 'x'), [('expr', 'y')]), None),
+        ('unknown-tag', ('unk', 'nosuch', ('name', 'x'), None), 'Unexpected tag'),
+        ('unknown-block', ('unk', 'nosuch', None, [('lit', 'body\n'), ('var', ('name', 'x'), [])]), 'Unexpected tag'),
+    ]
+
+
+def gen_fault(r):
+    """-> (label, abstract template with one ('mark', …) around the node whose first tag is at fault, message or None)"""
+    depth = r.choice([0, 1, 1, 2])
+    c = r.random()
+    wrappers = []
+
+    def place(nodes, levels, kinds=None):
+        for _ in range(levels):
+            w = fault_wrap(r, nodes, 1, *([kinds] if kinds else []))
+            wrappers.append(w[0])
+            nodes = [w]
+        return fault_filler(r, 1) + nodes + (fault_filler(r, 1) if r.random() < 0.7 else [])
+
+    if c < 0.5:
+        name, f = r.choice(block_faults(r, depth))
+        return name, place([('mark', f)], r.choice([0, 0, 1, 1, 2])), None
+    if c < 0.65:
+        name, f, msg = r.choice(tag_faults(r))
+        return name, place([('mark', f)], r.choice([0, 1, 1, 2])), msg
+    if c < 0.8:
+        # an end tag with nothing to end: at top level, or inside blocks of other tags
+        levels = r.choice([0, 1, 1, 2])
+        tname = r.choice(NO_END_FOR)
+        kinds = tuple(k for k in ('if', 'in', 'with', 'try', 'try-finally', 'unless', 'let') if k.split('-')[0] != tname)
+        return 'end-without-start:' + tname, place([('mark', ('end', tname))], levels, kinds), 'unexpected end tag'
+    # a block that is never closed
+    tname, st = r.choice([('if', ('name', 'c')), ('in', ('name', 'seq')), ('with', ('name', 'o')), ('unless', ('name', 'c')),
+                          ('try', None), ('let', None), ('raise', ('name', 'E')), ('comment', None)])
+    so = [('v0', 'c')] if tname == 'let' else []
+    secs = [(tname, st, so, fault_filler(r, depth, must_tag=True))]
+    cont = {'if': 'else', 'in': 'else', 'try': 'except'}.get(tname)
+    if cont and r.random() < 0.4:
+        secs.append((cont, None, [], fault_filler(r, depth, must_tag=True)))
+    un = ('open', tname, secs)
+    if c < 0.93:
+        return 'unclosed:' + tname, fault_filler(r, 1) + [('mark', un)], 'No closing tag'
+    # … inside one block: the enclosing block's end tag ends nothing — unless it has the same name, then it ends the inner
+    # block and the ENCLOSING one is never closed
+    wname, wt = r.choice([('if', ('name', 'd')), ('in', ('name', 'seq')), ('with', ('name', 'o')), ('unless', ('name', 'd'))])
+    pre = fault_filler(r, 1)
+    wsecs = [(wname, wt, [], fault_filler(r, 0) + [un])]
+    if wname == tname:
+        return 'unclosed-in-same:' + tname, pre + [('mark', ('open', wname, wsecs)), ('end', wname)] + fault_filler(r, 0), \
+            'No closing tag'
+    return 'unclosed-in-other:%s/%s' % (tname, wname), \
+        pre + [('open', wname, wsecs), ('mark', ('end', wname))] + fault_filler(r, 0), 'unexpected end tag'
+
+
+def check_fault(res, label, t, msg, r, reqs, meta):
+    res.evaluations += 1
+    seen = []
+    for syn in SYNTAXES:
+        kind = 'epfs' if syn == 'epfs' else 'html'
+        for v in range(2):
+            s = P3(r, syn).nodes(t)
+            a, b = s.index('\x01'), s.index('\x02')
+            exp_tag, exp_line = s[a + 1:b], s.count('\n', 0, a) + 1
+            src = s.replace('\x01', '').replace('\x02', '')
+            rr = parselib.compile_real(kind, src)
+            case = {'group': 'fault-report:' + label, 'abstract': repr(t), 'syntax': syn, 'src': src}
+            if rr['status'] != 'parse-error':
+                res.oracle_fail.append({'case': case, 'what': 'the abstract template has a fault (%s) and must be rejected with a '
+                                        'ParseError; this spelling is %s' % (label, rr['status'])})
+                return
+            reqs.append({'op': 'compile', 'syntax': kind, 'src': src})
+            meta.append(('%s%d' % (syn, v), kind, src, 'parse-error', rr['msg'].strip()))
+            got = (rr['tag'], rr['line'])
+            if got != (exp_tag, exp_line) or (msg is not None and rr['msg'].strip() != msg):
+                res.oracle_fail.append({'case': case, 'what': 'the error must be reported%s for the tag %r on line %d (where the '
+                                        'tag at fault starts in this spelling); reported: %r for tag %r on line %r' % (
+                                            ' as %r' % msg if msg else '', exp_tag, exp_line, rr['msg'], rr['tag'], rr['line'])})
+                return
+            seen.append((syn, rr['msg'].strip(), src))
+    if len({m for _, m, _ in seen}) != 1:
+        res.oracle_fail.append({'case': {'group': 'fault-report:' + label, 'abstract': repr(t), **{sy: sr for sy, _, sr in seen}},
+                                'what': 'the spellings are rejected with different messages: %r' % sorted({(sy, m) for sy, m, _ in seen})})
+        return
+    res.count('fault_report=' + label.split(':')[0])
+
+
+def run_faults(res, r, n, reqs, meta):
+    for _ in range(n):
+        label, t, msg = gen_fault(r)
+        res.nt(('fault', label, repr(t)[:60]))
+        check_fault(res, label, t, msg, r, reqs, meta)
+
+
 def run_wide(res, r, tier_n):
     reqs, meta = [], []
     run_reserved(res, r, tier_n, reqs, meta)
     run_hostile(res, r, tier_n, reqs, meta)
+    run_fragments(res, r, tier_n // 3, reqs, meta, tier_n > 1000)
+    run_faults(res, r, tier_n * 3, reqs, meta)
     return reqs, meta
 
 
@@ -1790,7 +2087,10 @@ def run(res, tier, have_driver):
                 'spellings of one template, one shared object; dtml, SSI, entity and %(…) spellings) under the line '
                 'scheduler with 1 preemption at every / sampled line event, 3 preemptions, 3 threads: every thread\'s program '
                 '== the abstract template\'s == the %(…) print compiled alone, same acceptance / message, same rendering on 3 '
-                'namespaces; non-trivial = distinct groups')
+                'namespaces; fragments of the delimiters of all syntaxes inside quoted values / expression strings at 14 sites '
+                '(predicted text); fault reports: one compile-time fault per multi-line template (5 kinds, every depth / '
+                'section), ParseError must name the tag at fault and the line it starts on in each of 6 spellings; '
+                'non-trivial = distinct groups')
     run_all(res, r, 250 if tier == 'quick' else 5000, have_driver, tier != 'quick')
     reqs, meta = run_wide(res, common.rng('C07-wide'), 150 if tier == 'quick' else 3000)
     if have_driver:
